@@ -168,6 +168,10 @@ def _strategy(draw):
         build += ["[ distance_restraints ]", f"{a} {b} {dist!r}" + ("" if tol is None else f" {tol!r}")]
         restraints.append({"kind": "dist", "mol": name, "lo": lo, "hi": hi, "a": a, "b": b, "dist": dist,
                            "tol": tol or 0.0})
+        if draw(st.integers(0, 2)) == 0:
+            # one of the restrained molecules is grown from a residue in its middle (-start with a molecule index)
+            ridx = draw(st.integers(1, nres - 1))
+            opts["start"] = [f"{name}#{draw(st.integers(lo, hi - 1))}-{mt['residues'][ridx]['resname']}#{ridx + 1}"]
     elif kind == "dist2":
         # two distance restraints whose growth paths overlap, in either declaration order
         build += ["[ molecule ]", f"{name} {lo} {hi}"]
